@@ -210,13 +210,20 @@ Proof.
     + assert (En1 : lookup (hp s1) n = Some ndm) by (unfold s1; cbn; eapply lookup_upd_same; exact E).
       destruct (M2 n ndm En1) as (nd2 & E2 & K2 & Mm2). rewrite E2 in H. inversion H. subst s' r. clear H.
       assert (Mt : mm nd2 = true) by (apply Mm2; reflexivity).
-      split.
-      * unfold fixed_D7. eapply Inv_update; [exact I2|exact E2|reflexivity|reflexivity|right; split; [reflexivity|exact Mt]|auto| |left; exact Mt|intros _; apply incl_refl].
-        intros c Hc. cbn in Hc. split.
-        -- destruct I2 as [_ _ [C1 _] _]. eapply C1. eapply child_intro; eassumption.
-        -- intros L. destruct I2 as [_ HI0 _ _]. eapply HI0; [eapply child_intro; eassumption|exact L].
-      * eapply mm_mono_trans; [exact M1|]. eapply mm_mono_trans; [exact M2|].
-        eapply mm_mono_upd; [exact E2|reflexivity|auto].
+      (* both values of the D7 switch: with the fix the flag is left to lock_() *)
+      assert (Both : forall b : bool, Inv (with_hp s2 (upd (hp s2) n (if b then nd2 else set_flag nd2 FTrue))) /\
+                                      mm_mono s2 (with_hp s2 (upd (hp s2) n (if b then nd2 else set_flag nd2 FTrue)))).
+      { intros b. assert (Ch : forall c, In c (node_children nd2) -> lookup (hp s2) c <> None /\ (live s2 n = true -> live s2 c = true)).
+        { intros c Hc. split.
+          - destruct I2 as [_ _ [C1 _] _]. eapply C1. eapply child_intro; eassumption.
+          - intros L. destruct I2 as [_ HI0 _ _]. eapply HI0; [eapply child_intro; eassumption|exact L]. }
+        destruct b.
+        - split; [eapply Inv_update; [exact I2|exact E2|reflexivity|reflexivity|left; reflexivity|auto|exact Ch|left; exact Mt|intros _; apply incl_refl]|].
+          eapply mm_mono_upd; [exact E2|reflexivity|auto].
+        - split; [eapply Inv_update; [exact I2|exact E2|reflexivity|reflexivity|right; split; [reflexivity|exact Mt]|auto|exact Ch|left; exact Mt|intros _; apply incl_refl]|].
+          eapply mm_mono_upd; [exact E2|reflexivity|auto]. }
+      destruct (Both fixed_D7) as [A B]. split; [exact A|].
+      eapply mm_mono_trans; [exact M1|]. eapply mm_mono_trans; [exact M2|exact B].
   - match type of H with context [fold_opt ?F (node_children nd) _] => set (Fm := F) in * end.
     assert (Fold : forall l sa ra sb rb, fold_opt Fm l (sa, ra) = Some (sb, rb) -> Inv sa -> Inv sb /\ mm_mono sa sb).
     { induction l as [|c l IHl]; intros sa ra sb rb Hf Ia; cbn [fold_opt] in Hf.
